@@ -54,7 +54,8 @@ def order_mc(ctx: Ctx, wd, max_steps: int, pres: str, designs: str, name: str):
         extends="TLC, Json")
     cfg = render_cfg(constants={"MaxSteps": max_steps, "Pres": Raw(pres),
                                 "Designs": Raw(designs), "FullHeaderGrid": max_steps <= 2}, invariants=ORDER_INVS + ["Emit"])
-    r = run_tlc(wd, "MC_LogOrder", cfg, timeout=1500, cfg_name=f"lo_{max_steps}.cfg")
+    # -workers 4: with the default (auto = 16) this model runs ~3.5x slower on this machine
+    r = run_tlc(wd, "MC_LogOrder", cfg, timeout=1500, cfg_name=f"lo_{max_steps}.cfg", workers=4)
     ctx.add_tlc(name, r)
     return r
 
@@ -67,8 +68,11 @@ def order_cause(sc: dict, prog: dict, res: dict) -> str:
     if sc["kind"] != "unary" and prog["init_raise"] and missing & {lg["id"] for lg in prog["init_logs"]}:
         why.add("log_then_raise")
     for st in prog["steps"]:
-        if st["act"] == "raise" and missing & {lg["id"] for lg in st["pre"]}:
+        if st["act"] in ("raise", "emitraise") and missing & {lg["id"] for lg in st["pre"]}:
             why.add("log_then_raise")
+        if st["act"] == "emitraise" and missing & {lg["id"] for lg in st["post"]}:
+            why.add("emit_log_then_raise")
+            continue
         if sc["tr"] == "http" and sc["kind"] == "exch" and missing & {lg["id"] for lg in st["post"]}:
             why.add("http_exchange_post_log")
         if sc["tr"] == "pipe" and missing & {lg["id"] for lg in st["post"]}:
